@@ -138,6 +138,8 @@ structure Reply where
   nx : Bool := false
   fresh : List String := []               -- pieces fetched from the upstream in this op
   expired : Bool := false                 -- carries an RRSIG with D < 0
+  lastCname : Option String := none       -- target of the last CNAME of the answer section
+  hasType : Bool := false                 -- the answer section holds a record of the question type
 deriving Repr
 
 structure HState where
@@ -184,7 +186,8 @@ def itemsToNs (id : Nat) (owner : String) (items : List Item) : List NsRec :=
 def mergeReply (r s : Reply) : Reply :=
   { ans := r.ans ++ s.ans, ansTTL := r.ansTTL ++ s.ansTTL,
     ns := r.ns ++ s.ns.filter (fun n => !(r.ns.any fun m => m.rid == n.rid)),
-    nx := r.nx || s.nx, fresh := r.fresh ++ s.fresh, expired := r.expired || s.expired }
+    nx := r.nx || s.nx, fresh := r.fresh ++ s.fresh, expired := r.expired || s.expired,
+    lastCname := if s.lastCname.isSome then s.lastCname else r.lastCname, hasType := r.hasType || s.hasType }
 
 /-- `Cache.ServeDNS` for one (sub-)query at `now`; returns the reply (if any
 was written) and the request tree's delegation-cut bound (`ResponseMeta.Cut`). -/
@@ -192,20 +195,40 @@ def serve (cfg : Cfg) (script : List (String × Spec)) (now : Int) :
     Nat → HState → String → Bool → Bool → HState × Option Reply × Option Int
   | 0, st, _, _, _ => (st, none, none)
   | fuel + 1, st, name, ecs, internal =>
-    -- `additionalAnswer` for an outer reply `r` whose last alias points at `t`
+    -- one pass of the `lookup:` loop of `additionalAnswer`: query `t` through
+    -- the sub-pipeline; the Bool says whether the loop is over, the String is
+    -- the next target (`child && !respCnameHasType`)
+    let chaseOnce (st : HState) (r : Reply) (t : String) (mcut : Option Int) :
+        HState × Reply × Option Int × Option String :=
+      -- internalExchange: the sub-query accumulates its own bound (ForkCut)
+      match serve cfg script now fuel st t false true with
+      | (st, none, _) => (st, r, mcut, none)
+      | (st, some s, child) =>
+        if s.ans.isEmpty && s.ns.isEmpty then
+          if s.nx then (st, { r with nx := true }, boundCut mcut child, none) else (st, r, mcut, none)
+        else
+          -- lineage.inherit(): the sub-query's records reach the outer answer
+          let r' := mergeReply r s
+          let mcut' := (forkInherit mcut [child] true).1
+          if s.nx then (st, r', mcut', none)
+          else match s.lastCname with
+            | some t' => if s.hasType then (st, r', mcut', none) else (st, r', mcut', some t')
+            | none => (st, r', mcut', none)
+    -- `additionalAnswer` for an outer reply `r` whose alias points at `tgt`
     let chase (st : HState) (r : Reply) (tgt : Option String) (mcut : Option Int) : HState × Reply × Option Int :=
       match tgt with
       | none => (st, r, mcut)
       | some t =>
-        -- internalExchange: the sub-query accumulates its own bound (ForkCut)
-        match serve cfg script now fuel st t false true with
-        | (st, none, _) => (st, r, mcut)
-        | (st, some s, child) =>
-          if s.ans.isEmpty && s.ns.isEmpty then
-            if s.nx then (st, { r with nx := true }, boundCut mcut child) else (st, r, mcut)
-          else
-            -- lineage.inherit(): the sub-query's records reach the outer answer
-            (st, mergeReply r s, (forkInherit mcut [child] true).1)
+        match chaseOnce st r t mcut with
+        | (st, r, mcut, none) => (st, r, mcut)
+        | (st, r, mcut, some t2) =>
+          if t2 == t then (st, r, mcut) else
+          match chaseOnce st r t2 mcut with
+          | (st, r, mcut, none) => (st, r, mcut)
+          | (st, r, mcut, some t3) =>
+            if t3 == t || t3 == t2 then (st, r, mcut) else
+            let (st, r, mcut, _) := chaseOnce st r t3 mcut
+            (st, r, mcut)
     match lookupSlots st name (ecs && !internal) now with
     | (st, some he) =>
       -- handleCacheHit: ToMsg / serveWire / serveWireIntoRequest all stamp `secs (remaining now)`
@@ -216,7 +239,8 @@ def serve (cfg : Cfg) (script : List (String × Spec)) (now : Int) :
         let mcut := boundCut none (some he.e.hardUntil)
         let r0 : Reply := { ans := if he.hasAns then [name] else [], ansTTL := if he.hasAns then [(name, shown)] else [],
                             ns := he.ns.map (fun n => { n with ttl := shown }), nx := he.nx,
-                            expired := he.ns.any nsExpired }
+                            expired := he.ns.any nsExpired, lastCname := he.target,
+                            hasType := he.hasAns && he.target.isNone }
         if he.nx then (st, some r0, mcut) else
         let (st, r, mcut) := chase st r0 he.target mcut
         (st, some r, mcut)
@@ -230,7 +254,9 @@ def serve (cfg : Cfg) (script : List (String × Spec)) (now : Int) :
         let mcut := boundCut none (sp.lease.map fun l => now + l * S)
         let r0 : Reply := { ans := if sp.ans.isEmpty then [] else [name], ns := itemsToNs id name sp.ns,
                             nx := sp.kind == 'x', fresh := [name],
-                            expired := sp.ans.any itemExpired || sp.ns.any itemExpired }
+                            expired := sp.ans.any itemExpired || sp.ns.any itemExpired,
+                            lastCname := if sp.kind == 'c' then some sp.tgt else none,
+                            hasType := sp.kind == 'p' && !sp.ans.isEmpty }
         -- ResponseWriter.WriteMsg: chase first, then read the mcut and store
         let (st, r, mcut) := if sp.kind == 'c' then chase st r0 (some sp.tgt) mcut else (st, r0, mcut)
         let hasAns := !sp.ans.isEmpty
